@@ -69,6 +69,17 @@ class FPV:
     def __neg__(self):
         return FPV(z3.fpNeg(self.e))
 
+    def __abs__(self):
+        return FPV(z3.fpAbs(self.e))
+
+    def sym_sqrt(self):
+        return FPV(z3.fpSqrt(RM, self.e))
+
+    def bits_equal(self, o):
+        """Same IEEE bit pattern (distinguishes -0.0 from +0.0); NaN payloads are outside (assume not NaN)."""
+        o = FPV.lift(o)
+        return C.B('z3', z3.And(z3.fpEQ(self.e, o.e), z3.fpIsNegative(self.e) == z3.fpIsNegative(o.e)))
+
     def _c(self, o, f):
         o = FPV.lift(o)
         return C.B('z3', f(self.e, o.e))
